@@ -123,7 +123,7 @@ def handle (args : List String) (impl : String) : R Ans :=
     let restKv : Option (List (String × String)) := if rest == "none" then none else
       some ((rest.splitOn ",").filterMap fun kv => match kv.splitOn "=" with | [a, b] => some (a, b) | _ => none)
     let gfa := writeGfa g
-    let json := toJsonRest g (fun d => toString (d.headD 0)) restKv
+    let json := toJsonRestImp g (fun d => toString (d.headD 0)) restKv
     let model := match gfa, json with
       | some a, some b => s!"gfa={esc a}|json={esc b}"
       | _, _ => "panic"
